@@ -150,6 +150,23 @@ def check_defaults(S, before, after, root, path, problems):
         problems.append((path, "present value changed"))
 
 
+def check_must_fill(S, before, after, root, path, problems):
+    """lower bound for schemas with alternatives: whatever anyOf / oneOf select, the schema itself and its allOf members
+    apply; an absent member for which one of them declares a default must be present afterwards"""
+    if isinstance(before, dict) and isinstance(after, dict):
+        for s in S:
+            for k, ps in (s.get("properties") or {}).items():
+                f = flatten(ps, root)[:1]
+                if f and f[0].get("default") is not None and k not in before and k not in after:
+                    problems.append((path + "." + k, "absent member with a default (declared by the schema itself or an allOf member) was not filled"))
+        for k, v in after.items():
+            if k in before:
+                check_must_fill(member_schemas(S, k, root), before[k], v, root, path + "." + k, problems)
+    elif isinstance(before, list) and isinstance(after, list) and len(after) == len(before):
+        for i, (b, a) in enumerate(zip(before, after)):
+            check_must_fill(item_schemas(S, i, root), b, a, root, "%s.%d" % (path, i), problems)
+
+
 def described(S, k):
     for s in S:
         if k in (s.get("properties") or {}):
